@@ -29,6 +29,8 @@ import (
 	"encoding/json"
 	"fmt"
 	"os"
+	"runtime"
+	"strings"
 	"sync/atomic"
 	"time"
 
@@ -51,6 +53,13 @@ func (h *graceful) DisposedState(e *am.Event) {
 	go e.Machine().Dispose()
 }
 
+// handlerLoops counts the live handler goroutines of all machines of this process
+func handlerLoops() int {
+	buf := make([]byte, 1<<20)
+	buf = buf[:runtime.Stack(buf, true)]
+	return strings.Count(string(buf), ".handlerLoop(")
+}
+
 func closedWithin(ch <-chan struct{}, d time.Duration) bool {
 	select {
 	case <-ch:
@@ -63,7 +72,7 @@ func closedWithin(ch <-chan struct{}, d time.Duration) bool {
 func main() {
 	var failing []string
 	total := 0
-	how := []string{"idle", "in-final-handler", "in-negotiation-handler", "twice", "force", "parent-ctx"}
+	how := []string{"idle", "in-final-handler", "in-negotiation-handler", "twice", "force", "parent-ctx", "idle-detached", "force-detached", "during-handler"}
 	for _, where := range how {
 		for _, withStart := range []bool{false, true} {
 			for _, mixin := range []bool{false, true} {
@@ -78,6 +87,18 @@ func main() {
 				}
 				m := am.New(parent, schema, &am.Opts{Id: "verif-c13"})
 				m.HandlerTimeout = 2 * time.Second
+				m.EvalTimeout = 5 * time.Minute
+				detached := strings.HasSuffix(where, "-detached")
+				if detached && mixin {
+					return "" // the scenario detaches ALL handlers: no state-based dispose handler
+				}
+				evalDone := make(chan bool, 1)
+				var evalRan atomic.Bool
+				pendingEval := func() {
+					// an Eval with the caller's own live context, queued behind the running handler
+					go func() { evalDone <- m.Eval("verif-c13", func() { evalRan.Store(true) }, context.Background()) }()
+					time.Sleep(30 * time.Millisecond)
+				}
 				var direct, stateBased atomic.Int32
 				m.OnDispose(func(id string, ctx context.Context) { direct.Add(1) })
 				if mixin {
@@ -87,7 +108,7 @@ func main() {
 				}
 				disposeNow := func() {
 					switch where {
-					case "force":
+					case "force", "force-detached":
 						m.DisposeForce()
 					default:
 						m.Dispose()
@@ -96,12 +117,19 @@ func main() {
 				neg := map[string]am.HandlerNegotiation{}
 				fin := map[string]am.HandlerFinal{}
 				if where == "in-final-handler" {
-					fin["AState"] = func(e *am.Event) { disposeNow() }
+					fin["AState"] = func(e *am.Event) { pendingEval(); disposeNow() }
 				}
 				if where == "in-negotiation-handler" {
-					neg["AEnter"] = func(e *am.Event) bool { disposeNow(); return true }
+					neg["AEnter"] = func(e *am.Event) bool { pendingEval(); disposeNow(); return true }
 				}
-				if _, err := m.HandlersBindMaps(neg, fin); err != nil {
+				entered, release := make(chan struct{}), make(chan struct{})
+				if where == "during-handler" {
+					// Dispose lands from another goroutine while a final handler is running
+					m.DisposeTimeout = 200 * time.Millisecond
+					fin["AState"] = func(e *am.Event) { close(entered); <-release }
+				}
+				binding, err := m.HandlersBindMaps(neg, fin)
+				if err != nil {
 					panic(err)
 				}
 				if withStart {
@@ -122,11 +150,26 @@ func main() {
 					switch where {
 					case "idle", "force":
 						disposeNow()
+					case "idle-detached", "force-detached":
+						// the handler goroutine was started by the binding and outlives the detach
+						if err := m.HandlersDetach(binding); err != nil {
+							panic(err)
+						}
+						disposeNow()
 					case "twice":
 						disposeNow()
 						disposeNow()
 					case "parent-ctx":
 						cancelParent()
+					case "during-handler":
+						go m.Add1("A", nil)
+						if !closedWithin(entered, 2*time.Second) {
+							panic("handler did not start")
+						}
+						pendingEval()
+						disposeNow()
+						time.Sleep(100 * time.Millisecond)
+						close(release)
 					default:
 						m.Add1("A", nil)
 					}
@@ -146,6 +189,26 @@ func main() {
 					}
 					if !closedWithin(sctx.Done(), time.Second) {
 						bad = "state context still alive after disposal"
+					}
+					if strings.HasPrefix(where, "in-") || where == "during-handler" {
+						select {
+						case ok := <-evalDone:
+							if ok && !evalRan.Load() {
+								bad = "an Eval pending at disposal reported success although its func never ran"
+							}
+						case <-time.After(3 * time.Second):
+							bad = "an Eval (own live context) pending at disposal is still blocked 3s after disposal"
+						}
+					}
+					// the handler goroutine has exited
+					gone := false
+					for i := 0; i < 40 && !gone; i++ {
+						if gone = handlerLoops() == 0; !gone {
+							time.Sleep(50 * time.Millisecond)
+						}
+					}
+					if !gone {
+						bad = "the handler goroutine is still running 2s after disposal"
 					}
 					if direct.Load() != 1 {
 						bad = fmt.Sprintf("OnDispose handler ran %d times", direct.Load())
@@ -199,6 +262,9 @@ func main() {
 	defer os.RemoveAll(tmp)
 	sf := filepath.Join(tmp, "main.go")
 	os.WriteFile(sf, []byte(src), 0o644)
+	if d := os.Getenv("GOCV_KEEP_STANDIN"); d != "" {
+		os.WriteFile(filepath.Join(d, "c13_main.go"), []byte(src), 0o644) // maintenance only
+	}
 	virt := filepath.Join(opts.Repo, "internal", "zz_verif_c13bounded", "main.go")
 	ov, _ := json.Marshal(map[string]any{"Replace": map[string]string{virt: sf}})
 	ovf := filepath.Join(tmp, "ov.json")
